@@ -62,7 +62,8 @@ class FreshRhs:
         else:
             args = [] if self.autonomous else [t]
             args += flat(c, y)
-            args += [kw[k] for k in sorted(kw)]          # the equation's parameters (OdeSystem.constants) are arguments of f
+            if not getattr(self, "ignore_kw", False):
+                args += [kw[k] for k in sorted(kw)]      # the equation's parameters (OdeSystem.constants) are arguments of f
             outs = c.uf(self.name, args, self.n, fresh=(self.mode == "fresh"))
         val = c.array(outs).reshape(self.shape) if self.shape else outs[0]
         if self.reuse_buffer and self.shape:
